@@ -1,4 +1,14 @@
 class Move:
+    def __init__(self, move_arg, reference, is_alignment):
+        Field.__init__(self)
+        self.move_arg = move_arg
+        self.reference = reference
+        self.is_alignment = is_alignment
+        self.default = b''
+
+    def init(self, packet, defaults):
+        pass
+
     def unpack(self, pkt, raw, offset=0, **k):
         if isinstance(self.move_arg, Field):
             move_value = getattr(pkt, self.move_arg.field_name)
